@@ -3,6 +3,7 @@ import VtProofs.VplTotal
 import VtProofs.VplDepth
 import VtProofs.VplProps
 import VtProofs.VplCanon
+import VtProofs.VplTypes
 /-!
 # C18 — every well-formed pipeline text parses to the pipeline it describes
 
@@ -98,6 +99,17 @@ theorem deep_opens_rejected (names : List Str) (hn : ∀ n ∈ names, ∀ ch ∈
   have := bracketDepth_le_append (opens names) post
   rw [bracketDepth_opens names hn] at this
   exact Nat.lt_of_lt_of_le hk this
+
+/-- **sequential brackets do not add up** (the "counter confusion" class): any number of balanced pieces one
+    after the other — sibling sources, list-valued parameters, `[ ]` after `[ ]` — has the depth of the deepest
+    piece; in particular `n` times `[]` has depth ≤ 1 for every `n`, and quoted strings count nothing -/
+theorem sequential_brackets_do_not_add_up {X : Type} (chunk : X → Str) (f : X → Nat) (xs : List X)
+    (h : ∀ x ∈ xs, Bal (chunk x) (f x)) : bracketDepth ((xs.map chunk).flatten) = listMax f xs :=
+  bracketDepth_sequence chunk f xs h
+
+theorem many_empty_lists_are_flat (n : Nat) :
+    bracketDepth (((List.replicate n ()).map fun _ => ['[', ']']).flatten) ≤ 1 :=
+  bracketDepth_sequence_le (fun _ => ['[', ']']) (fun _ => 1) _ 1 (fun _ _ => Bal.emptyBrackets) (fun _ _ => Nat.le_refl _)
 
 /-- one operation (`parse_node`) against any correct parser for the nested pipelines -/
 theorem parse_node {Pc : Type} (pp : P Pipeline) (ps : Pc → Str) (pt : Pc → Pipeline) (wf : Pc → Prop)
@@ -220,6 +232,37 @@ theorem bad_parameters_fail_pipeline (name : Str) (props : List (Str × List Str
 theorem bad_parameters_fail_transform (fmt name : Str) (props : List (Str × List Str)) (sources : List (List Node))
     (rest : List Node) (o : OpSig) (h : findOp false name = some o) (hd : decodeOk props o.fields = false) :
     buildTail fmt (.mk name props sources :: rest) = none := build_tran_decode fmt name props sources rest o h hd
+
+/-! ## the typed getters, type by type: `decode (show v) = v`, out of range ⇒ error, absent ⇒ None / default -/
+
+theorem u8_value_roundtrip (f : Str) (n : Nat) (h : n ≤ 255) : getUnsigned 255 [(f, [decimal n])] f = .val n :=
+  u8_roundtrip f n h
+/-- no narrowing: `256`, `257`, … are errors, not `0`, `1`, … -/
+theorem u8_above_max_rejected (f : Str) (n : Nat) (h : 255 < n) : getUnsigned 255 [(f, [decimal n])] f = .err :=
+  u8_out_of_range f n h
+theorem u32_value_roundtrip (f : Str) (n : Nat) (h : n ≤ 4294967295) :
+    getUnsigned 4294967295 [(f, [decimal n])] f = .val n := u32_roundtrip f n h
+theorem u32_above_max_rejected (f : Str) (n : Nat) (h : 4294967295 < n) :
+    getUnsigned 4294967295 [(f, [decimal n])] f = .err := u32_out_of_range f n h
+theorem negative_unsigned_rejected (max : Nat) (t : Str) : parseUnsigned max ('-' :: t) = none :=
+  unsigned_minus_rejected max t
+theorem bool_value_roundtrip (f : Str) (b : Bool) : getBool [(f, [showBool b])] f = .val b := bool_roundtrip f b
+theorem bool_absent_is_false (props : List (Str × List Str)) (f : Str) (h : lookupProp props f = none) :
+    getBool props f = .val false := bool_default props f h
+theorem string_value_roundtrip (f v : Str) : getProperty [(f, [v])] f = .val v := string_roundtrip f v
+theorem optional_absent_is_none (props : List (Str × List Str)) (f : Str) (h : lookupProp props f = none) :
+    getProperty props f = .absent ∧ getUnsigned 255 props f = .absent ∧ getUnsigned 4294967295 props f = .absent ∧
+    getFloat props f = .absent ∧ getArray4 props f = .absent ∧ required (getProperty props f) = .err :=
+  optional_absent props f h
+/-- floats: whole numbers written in decimal are accepted with exactly that value (f64 rounding of other
+    decimals is outside the model; the harness compares whole values below 2^24 exactly) -/
+theorem float_whole_numbers (n : Nat) : floatOk (decimal n) = true ∧ decimalParts (decimal n) = some (false, n, 0) :=
+  float_accepts_integers n
+theorem array4_value_roundtrip (f : Str) (a b c d : Nat) :
+    getArray4 [(f, [decimal a, decimal b, decimal c, decimal d])] f = .val [decimal a, decimal b, decimal c, decimal d] :=
+  array4_roundtrip f a b c d
+theorem array4_other_lengths_rejected (f : Str) (vs : List Str) (h : vs.length ≠ 4) : getArray4 [(f, vs)] f = .err :=
+  array4_wrong_length f vs h
 
 /-! ## the registered operations, geographic boxes, file names -/
 
